@@ -172,7 +172,11 @@ impl FromMeta for DataShape {
 
         for item in items {
             if let NestedMeta::Meta(Meta::Path(ref path)) = *item {
-                errors.handle(new.set_word(&path.segments.first().unwrap().ident.to_string()));
+                let ident = &path.segments.first().unwrap().ident;
+                errors.handle(
+                    new.set_word(&ident.to_string())
+                        .map_err(|e| e.with_span(&ident)),
+                );
             } else {
                 errors.push(Error::unsupported_format("non-word").with_span(item));
             }
